@@ -265,6 +265,11 @@ def check_container_transfer(src, dst, quantity, result, exc, nested):
         return
     rq = request_quantum(base, sc)
     rq_rel = rq / m
+    if reason == 'whole_content':
+        # within the boundary zone of "everything": the aliquot is at most the whole content
+        rq_rel += abs(f - 1.0)
+        rq += abs(value - m)
+        f = min(f, 1.0)
     ok = True
     for s, a in sc.items():
         exp_src = a - f * a
@@ -294,6 +299,8 @@ def check_container_transfer(src, dst, quantity, result, exc, nested):
     size_src = m - R.measure(s2.contents, base)
     size_dst = R.measure(d2.contents, base) - R.measure(dc, base)
     tol = K * (storage_noise_in(sc, base) + rq) + 1e-9 * abs(value) + R.noise(m, R.measure(dc, base))
+    if reason == 'whole_content':
+        value = min(value, m)
     for side, size in (('source', size_src), ('destination', size_dst)):
         if not M.ratio('ALIQ.size', size, value, tol):
             ok = False
@@ -465,9 +472,21 @@ class HContainerInit(Handler):
         M.bucket(f'C03/ctor/{infeasible or cap_state}/' + ('refused' if exc is not None else 'accepted'))
         if exc is not None:
             et = type(exc).__name__
-            if infeasible is None and cap_state in ('ok', 'exact'):
+            must = bool(expect and expect.get('must') == 'accept')
+            # exactly-at-capacity is demanded only for the round-number requests the workload flags; with
+            # 16-digit random values the capacity itself is quantised and "exact" is three-valued
+            if infeasible is None and (cap_state == 'ok' or (cap_state == 'exact' and must)):
                 mech = (f'C03:exact_capacity_construction_refused:{et}' if cap_state == 'exact'
                         else f'C03:feasible_construction_refused:{et}')
+                if cap_state == 'exact' and cap / cf.vol_prefix >= 1e5 and et == 'ValueError':
+                    # above ~1e5 storage units a double no longer resolves the 10th decimal
+                    try:
+                        with M.oracle():
+                            type(self_)(name or 'x', f'{cap * (1 + 1e-9)!r} L', init)
+                        mech = 'C03:exact_capacity_construction_refused:large_volume_float_noise'
+                    except Exception:
+                        mech = f'C03:near_capacity_construction_refused_even_with_margin:{et}'
+
                 M.violate(['C03'], 'FEAS', mech,
                           {'max_volume': max_volume, 'init': [(s.name, v, b) for s, v, b in entries],
                            'volume_L': vol, 'cap_L': cap, 'exc': repr(exc)[:300]})
